@@ -343,7 +343,8 @@ class ClimateData(Data, Cached):
         """
         # If data are anomalies skip automatic calculation of anomalies
         if self.anomalies:
-            return self._full_observable
+            #  (the data within the currently selected window)
+            return self.observable()
 
         observable = self.observable()
         time_cycle = self.time_cycle
